@@ -101,6 +101,29 @@ def run(ctx: Ctx) -> None:
             ctx.count((t, cname), nontrivial=True)
             if k is None or proj(k.children) != proj(base.children):
                 ctx.fail("context-dependent", f"the inline text parses differently in context {cname} than in a paragraph", {"input": doc, "t": t, "context": cname})
+    # ---- (2b) the nesting budget is the inline parser's own: texts whose bracket / emphasis depth is around maxNesting mean the
+    #      same in every block context and under parseInline (a block level leaking into the inline level shifts the cut-off)
+    for mn in (6, 8, 20):
+        mdn = MarkdownIt("commonmark", {"maxNesting": mn}).enable("table")
+        fam = []
+        for k in range(max(1, mn - 7), mn + 3):
+            fam += ["a " + "[" * k + "foo](/url)", "a " + "![" * k + "foo](/url)", "a " + "[" * k + "x" + "](/u)" * k,
+                    "a " + "*b " * k + "c" + "*" * k, "a " + "[*" * k + "x" + "*](/u)" * k]
+        for t in fam:
+            base = kids(mdn.parse(t + "\n"))
+            if base is None or base.content != t:
+                continue
+            pi = mdn.parseInline(t)
+            ctx.count((t, mn, "parseInline"), nontrivial=True)
+            if proj(pi[0].children) != proj(base.children):
+                ctx.fail("parseInline!=paragraph", f"parseInline differs from the paragraph's children near the nesting limit (maxNesting={mn})",
+                         {"input": t, "preset": "commonmark", "maxNesting": mn})
+            for cname, doc in {"heading": "# " + t + "\n", "list": "- " + t + "\n", "quote": "> " + t + "\n", "cell": "|" + t + "|\n|-|\n"}.items():
+                k2 = kids(mdn.parse(doc))
+                ctx.count((t, mn, cname), nontrivial=True)
+                if k2 is None or proj(k2.children) != proj(base.children):
+                    ctx.fail("context-dependent", f"the inline text parses differently in context {cname} than in a paragraph near the nesting limit (maxNesting={mn})",
+                             {"input": doc, "t": t, "context": cname, "maxNesting": mn})
     # ---- (3) renderer-only options
     combos = list(itertools.product([False, True], [False, True], ["language-", "x-", ""]))
     lines, exp, metas = [], [], []
